@@ -117,6 +117,10 @@ pub struct SchedSpec {
     pub split_write_jobs: bool,
     /// one directed run (no exploration): every client is brought to its channel send first
     pub gather_at_send: bool,
+    /// the session is closed right after the last operation, while requests may still be queued
+    /// for the worker (the close is part of the explored schedule); the observations are then taken
+    /// from a re-opened storage
+    pub early_close: bool,
 }
 
 impl SchedSpec {
@@ -142,6 +146,7 @@ impl SchedSpec {
             liveness_check: false,
             split_write_jobs: io_mode == IoMode::Background,
             gather_at_send: false,
+            early_close: false,
         }
     }
 }
@@ -405,6 +410,37 @@ async fn main_task<K: HKey>(spec: SchedSpec) -> SchedOut {
             label,
         });
     }
+    let storage = if spec.early_close {
+        let st = match Arc::try_unwrap(storage) {
+            Ok(s) => s,
+            Err(_) => {
+                out.findings.push(finding("machinery", "storage still shared at the end".to_string()));
+                return out;
+            }
+        };
+        w.storage = Some(st);
+        if let Err(e) = w.close().await {
+            out.findings.push(finding("close", format!("{e:#}")));
+        }
+        ctl::with_ctl(|c| c.set_exploring(false));
+        ctl::quiesce().await;
+        // the session is over: whatever was requested before the close has been carried out
+        let names: Vec<String> = world::dir_listing(&dir).into_iter().map(|x| x.0).collect();
+        for (id, path) in blobfile::blob_files(&dir) {
+            let n = blobfile::parse(&std::fs::read(&path).unwrap_or_default(), World::<K>::key_len()).records.len();
+            if n > 0 && !names.iter().any(|f| *f == format!("{}.{id}.index", spec.wcfg.prefix)) {
+                out.findings.push(finding("index_dump", format!("after close the blob {id} ({n} records) has no index file: a requested index dump did not complete")));
+            }
+        }
+        if let Err(e) = w.init(false).await {
+            out.findings.push(finding("restart", format!("init after the early close failed: {e:#}")));
+            return out;
+        }
+        ctl::quiesce().await;
+        Arc::new(w.storage.take().unwrap())
+    } else {
+        storage
+    };
     ctl::with_ctl(|c| c.set_exploring(false));
     ctl::quiesce().await;
     if spec.liveness_check {
